@@ -282,6 +282,8 @@ def _kw_parts(m: MethodNF, base):
     def parts(t):
         if t[0] == "binop" and t[1] == "Add":
             return parts(t[2]) + parts(t[3])
+        if t[0] == "call" and t[1] in ("tuple", "list") and len(t[2]) == 1 and not t[3]:
+            return parts(t[2][0])           # the same elements in the same order
         oo = I.obj(t)
         if isinstance(oo, HList) and oo.segs and all(s[0] == "s" for s in oo.segs) and \
                 not any(n[0] == "mutate" and n[1] == t for n, _ in nf.iter_nodes(m.tree)):
